@@ -162,11 +162,25 @@ N_BLOCKS = len(BLOCK_NAMES)
 META = ('doc', 'since', 'since-text', 'deprecated', 'deprecated-text', 'stability', 'attributes', 'skip')
 
 
-def _meta_block(name, meta):
+def _meta_block(name, meta, meta2=None):
     ann = {}
     tags = {}
     desc = None
-    if meta == 'doc':
+    for m in (meta, meta2):
+        d = _meta_parts(m)
+        ann.update(d[0])
+        tags.update(d[1])
+        desc = d[2] or desc
+    return mk_block(name, annotations=ann, tags=tags, description=desc)
+
+
+def _meta_parts(meta):
+    ann = {}
+    tags = {}
+    desc = None
+    if meta is None:
+        pass
+    elif meta == 'doc':
         desc = 'the documentation'
     elif meta == 'since':
         tags['since'] = ({}, '1.4', None)
@@ -182,7 +196,7 @@ def _meta_block(name, meta):
         ann['attributes'] = {'my.key': 'my value'}
     elif meta == 'skip':
         ann['skip'] = []
-    return mk_block(name, annotations=ann, tags=tags, description=desc)
+    return ann, tags, desc
 
 
 def _has_effect(e, meta):
@@ -215,18 +229,34 @@ def _has_effect(e, meta):
     return False
 
 
-def metadata(block: int, meta: int):
+def metadata(block: int, meta: int, meta2: int = -1, two_prefixes: bool = False):
+    """meta2: a second piece of metadata in the same block (-1: none).  two_prefixes: the
+    namespace has identifier prefixes Foo and Fu and the class is registered under the GType
+    name FuObj while its C type is FooObj (blocks are written under the C name)."""
     block = sym.pick(block, 0, N_BLOCKS - 1)
     meta = sym.pick(meta, 0, len(META) - 1)
+    meta2 = sym.pick(meta2, -1, len(META) - 1)
+    two_prefixes = sym.flag(two_prefixes)
     with sym.untraced():
-        return _metadata(block, meta)
+        return _metadata(block, meta, meta2, two_prefixes)
 
 
-def _metadata(block, meta):
+def _dump2():
+    d = _dump()
+    d[0].attrib['name'] = 'FuObj'
+    return d
+
+
+def _metadata(block, meta, meta2=-1, two_prefixes=False):
     name = BLOCK_NAMES[block]
     m = META[meta]
-    base = run_pipeline(_decls(), [], _dump())
-    run = run_pipeline(_decls(), [_meta_block(name, m)], _dump())
+    m2 = META[meta2] if meta2 >= 0 else None
+    if m2 is not None and (m2 == m or m2.split('-')[0] == m.split('-')[0]):
+        return True         # the same tag twice in one block is not a block the grammar allows
+    pf = dict(identifier_prefixes=['Foo', 'Fu'], symbol_prefixes=['foo']) if two_prefixes else None
+    dump = _dump2 if two_prefixes else _dump
+    base = run_pipeline(_decls(), [], dump(), prefixes=pf)
+    run = run_pipeline(_decls(), [_meta_block(name, m, m2)], dump(), prefixes=pf)
     if base.root is None or run.root is None:
         return 'pipeline stopped: %r %r' % (run.fatal, run.crashed)
     targets = TARGETS[name]
@@ -237,12 +267,14 @@ def _metadata(block, meta):
             return 'element <%s %s> found %d times' % (tag, ident, len(hits))
         path, el = hits[0]
         allowed.append(path)
-        if tag == 'member' and m in ('skip',):
-            continue        # enumeration members have no introspectable flag of their own to carry (skip)
-        if not _has_effect(el, m):
-            return 'block %r (%s): no effect on <%s %s>: %r' % (name, m, tag, ident, el.attrs)
+        for mm in (m, m2):
+            if mm is None or (tag == 'member' and mm == 'skip'):
+                continue    # enumeration members have no introspectable flag of their own to carry (skip)
+            if not _has_effect(el, mm):
+                return 'block %r (%s%s): no %s effect on <%s %s>: %r' % (name, m, '+' + m2 if m2 else '', mm, tag, ident,
+                                                                        el.attrs)
     diffs = diff_paths(base.root, run.root)
-    if m == 'skip':
+    if 'skip' in (m, m2):
         # skipping a type may legitimately ripple to its users; only the pairs are compared
         for tag, ident, within in targets:
             other = [t for n2, ts in TARGETS.items() for t in ts if t[0] == tag and t != (tag, ident, within)]
@@ -346,3 +378,44 @@ def _roles(case, misplaced):
         if len(sh) == 1 and len(bh) == 1 and sh[0][1].get(attr) != bh[0][1].get(attr):
             return 'block %r %r also changed %s of <%s %s>' % (name, ann, attr, sibling[0], sibling[1])
     return True
+
+
+# ------------------------------------------------------------------------------
+# rename-to among three functions: shadows / shadowed-by must form mutually consistent pairs
+
+def rename_chains(r1: int, r2: int, r3: int, order: int):
+    """foo_a, foo_b, foo_c each optionally carry (rename-to X), X in {foo_a, foo_b, foo_c, foo_missing};
+    the functions are declared in one of six orders."""
+    r1 = sym.pick(r1, 0, 4)
+    r2 = sym.pick(r2, 0, 4)
+    r3 = sym.pick(r3, 0, 4)
+    order = sym.pick(order, 0, 5)
+    with sym.untraced():
+        import itertools
+        import spec_closure
+        names = ('foo_a', 'foo_b', 'foo_c')
+        targets = (None, 'foo_a', 'foo_b', 'foo_c', 'foo_missing')
+        perm = list(itertools.permutations(range(3)))[order]
+        decls = [s_typedef('FooRec', t_struct('_FooRec')), s_struct('_FooRec', [s_member('x', t_basic('int'))])]
+        for i in perm:
+            decls.append(s_function(names[i], t_void(), [s_param('x', t_basic('int'))]))
+        blocks = []
+        for n, r in zip(names, (r1, r2, r3)):
+            if targets[r]:
+                blocks.append(mk_block(n, annotations={'rename-to': [targets[r]]}))
+        o = run_pipeline(decls, blocks, None)
+        if o.root is None:
+            return True
+        errs = []
+        ns = [e for e in o.root.iter() if e.tag == 'namespace'][0]
+        spec_closure._check_function_links(None, ns, 'namespace', errs)
+        # every accepted pair must come from an annotation
+        for f in ns.children:
+            if f.tag == 'function' and f.get('shadows'):
+                src = 'foo_' + f.get('name')
+                want = dict(zip(names, (r1, r2, r3)))[src]
+                if targets[want] != 'foo_' + f.get('shadows'):
+                    errs.append('%s shadows %s without such an annotation' % (src, f.get('shadows')))
+        if errs:
+            return 'rename-to: ' + '; '.join(errs[:3])
+        return True
